@@ -170,9 +170,6 @@ R("3b271e10e0", "internal", "UDP length: the DHCP reply is framed only when it h
 
 # ================================================================== C20: what the HTTP responders reach
 C20 = ("C20",)
-R("76515f4591", "internal", "Response::builder() with a literal status and a literal, valid header name and value: body() cannot fail", props=C20)
-R("d611d5f1a7", "internal", "Response::builder() with a literal status and a literal, valid header name and value: body() cannot fail", props=C20)
-R("5844c50d15", "internal", "`.or_else(|| Some(..)).unwrap()`: the closure always yields Some", props=C20)
 R("a62504f0c5", "env", "TextEncoder::encode into a Vec fails only for a metric family without samples or with an invalid name; the families "
   "are the crate's own constant registrations", props=C20)
 R("08eac32c12", "internal", "offset + count: offset <= len(buffer) (cursor invariant), count <= 255 (an option length octet)", props=C20, requires=("C05.inv",))
